@@ -28,6 +28,7 @@ ASSUMPTIONS = [
     "name shapes are classified syntactically (digits after an underscore, one-letter words, capitals ...) for mechanism signatures",
 ]
 FLOORS = {"quick": {"identifiers": 2500, "key_roundtrips": 15000}, "thorough": {"identifiers": 40000, "key_roundtrips": 250000}}
+ANCHORS = ['snake_case', 'pascal_case', 'camel_case', 'sanitize_name', 'safe_snake_case', 'pythonize_field_name', 'pythonize_class_name', 'Message._from_dict_init']
 CONTRACTS = []
 
 CORPUS = ["address_line_1", "ipv4_address", "x_y_z", "HTTPStatus", "fooBar", "foo_bar", "FooBar", "foo__bar", "foo_", "_foo",
